@@ -58,6 +58,15 @@ func (cfg *Config) merge(src *Config) error {
 		return err
 	}
 
+	// mergo keeps the destination's (non-empty) variables container as it is: merge its content
+	if src.Variables != nil {
+		if cfg.Variables == nil {
+			cfg.Variables = src.Variables
+		} else {
+			cfg.Variables = cfg.Variables.Merge(src.Variables)
+		}
+	}
+
 	return nil
 }
 
